@@ -355,27 +355,125 @@ def _fully_parenthesised(text: str) -> bool:
     return depth == 0
 
 
+def _plain_args(args) -> str | None:
+    """a text that identifies the arguments of a shared rule function: model objects by their kind (they are functions of the
+    analysed tree), plain values by their text; None when an argument is neither"""
+    out = []
+    for a in args:
+        if isinstance(a, (str, int, float, bool, type(None))):
+            out.append(repr(a))
+        elif isinstance(a, (list, tuple, set, frozenset)):
+            inner = [_plain_args([x]) for x in a]
+            if any(x is None for x in inner):
+                return None
+            out.append('[' + ','.join(sorted(inner) if isinstance(a, (set, frozenset)) else inner) + ']')
+        elif isinstance(a, dict):
+            inner = [(_plain_args([k]), _plain_args([v])) for k, v in a.items()]
+            if any(k is None or v is None for k, v in inner):
+                return None
+            out.append('{' + ','.join(f'{k}:{v}' for k, v in sorted(inner)) + '}')
+        elif type(a).__name__ in ('SourceModel', 'Grammar', 'EmissionModel', 'RuntimeModel', 'CallGraph'):
+            from ..source import REPO, get_source
+            model_src = a if type(a).__name__ == 'SourceModel' else getattr(a, 'src', None)
+            if model_src is None or model_src is not get_source() or str(model_src.repo) != str(REPO):
+                return None                 # a model of something else than the analysed tree (a self-check example)
+            out.append(type(a).__name__)
+        elif callable(a) and hasattr(a, '__name__'):
+            out.append(f'fn:{getattr(a, "__module__", "")}.{a.__name__}')
+        else:
+            return None
+    return '|'.join(out)
+
+
+def evaluate_shared(run: Run, fn, args, kwargs=None):
+    """obligations, findings, errors and notes of `fn(<scratch run>, *args)`: from the cross-process cache when the same function was
+    evaluated on the same tree by another check, evaluated (and stored) otherwise"""
+    from .. import cache
+    from ..source import REPO
+    kwargs = kwargs or {}
+    plain_extra = {k: v for k, v in run.extra.items() if isinstance(v, (str, int, float, bool))}
+    sig = _plain_args(list(args) + [f'{k}={v!r}' for k, v in sorted(kwargs.items())] + [f'extra:{sorted(plain_extra.items())!r}'])
+    key = None
+    if sig is not None:
+        key = cache.key_for(REPO, f'{getattr(fn, "__module__", "")}.{fn.__name__}', sig, run.tier)
+        hit = cache.load(key)
+        if hit is not None:
+            return hit
+    sub = Run('tmp', run.tier, run.seed, quiet=True)
+    sub.extra.update(plain_extra)
+    err = None
+    try:
+        fn(sub, *args, **kwargs)
+    except AnalysisError as e:
+        err = {'rule': e.rule, 'reason': e.reason, 'kind': 'analysis'}
+    except Exception as e:
+        err = {'rule': '', 'reason': f'internal error in shared rule: {type(e).__name__}: {e}', 'kind': 'internal'}
+    data = {'obligations': [{k: o.get(k) for k in ('rule', 'construct', 'fact', 'nontrivial', 'loc', 'verdict')} for o in sub.obligations],
+            'findings': [{k: f.get(k) for k in ('rule', 'construct', 'sub', 'message', 'loc', 'facts')} for f in sub.findings],
+            'errors': list(sub.errors), 'notes': list(sub.notes), 'error': err, 'extra': {k: v for k, v in sub.extra.items()
+                                                                                          if isinstance(v, (str, int, float, bool, list))}}
+    if key is not None:
+        cache.store(key, data)
+    return data
+
+
 def borrow(run: Run, as_rule: str, fn, *args, only_rules=None):
     """run a rule function of another property in a scratch Run and re-label its obligations/findings as `as_rule`"""
-    sub = Run('tmp', run.tier, run.seed, quiet=True)
-    try:
-        fn(sub, *args)
-    except AnalysisError as e:
-        run.error(as_rule, f'{e.rule}: {e.reason}')        # what was found before the analysis gave up still counts
-    except Exception as e:
-        run.error(as_rule, f'internal error in shared rule: {type(e).__name__}: {e}')
-    for o in sub.obligations:
+    data = evaluate_shared(run, fn, args)
+    if data['error'] is not None:
+        e = data['error']
+        run.error(as_rule, f'{e["rule"]}: {e["reason"]}' if e['kind'] == 'analysis' else e['reason'])   # what was found before still counts
+    for o in data['obligations']:
         if only_rules and o['rule'] not in only_rules:
             continue
         if o['verdict'] == 'holds':
-            run.ok(as_rule, o['construct'], o['fact'], nontrivial=o['nontrivial'], loc=o['loc'])
-    for f in sub.findings:
+            run.ok(as_rule, o['construct'], o['fact'], nontrivial=o.get('nontrivial', True), loc=o['loc'])
+    for f in data['findings']:
         if only_rules and f['rule'] not in only_rules:
             continue
-        run.bad(as_rule, f['construct'], f['sub'], f['message'], loc=f['loc'], facts=f['facts'])
-    for e in sub.errors:
+        run.bad(as_rule, f['construct'], f['sub'], f['message'], loc=f['loc'], facts=f.get('facts'))
+    for e in data['errors']:
         run.errors.append(f'{as_rule} <- {e}')
-    return sub
+    for n in data['notes']:
+        run.note(n)
+    return data
+
+
+def cached_guard(run: Run, rule: str, fn, *args):
+    """run.guard(rule, fn, run, *args) through the cross-process cache: the obligations keep the rule ids the function gave them"""
+    data = evaluate_shared(run, fn, args)
+    for o in data['obligations']:
+        if o['verdict'] == 'holds':
+            run.ok(o['rule'], o['construct'], o['fact'], nontrivial=o.get('nontrivial', True), loc=o['loc'])
+    for f in data['findings']:
+        run.bad(f['rule'], f['construct'], f['sub'], f['message'], loc=f['loc'], facts=f.get('facts'))
+    for e in data['errors']:
+        run.errors.append(e)
+    for n in data['notes']:
+        run.note(n)
+    for k, v in data.get('extra', {}).items():
+        run.extra[k] = v
+    if data['error'] is not None:
+        e = data['error']
+        run.error(e['rule'] or rule, e['reason'])
+
+
+def shared(run: Run, rule: str, fn, *args, **kwargs):
+    """a rule function that takes its rule id as second argument (fn(run, rule, ...)), evaluated once per tree: its obligations are
+    replayed under `rule`; an analysis error is raised again"""
+    data = evaluate_shared(run, fn, ('<rule>',) + tuple(args), kwargs)
+    for o in data['obligations']:
+        if o['verdict'] == 'holds':
+            run.ok(rule if o['rule'] == '<rule>' else o['rule'], o['construct'], o['fact'], nontrivial=o.get('nontrivial', True), loc=o['loc'])
+    for f in data['findings']:
+        run.bad(rule if f['rule'] == '<rule>' else f['rule'], f['construct'], f['sub'], f['message'], loc=f['loc'], facts=f.get('facts'))
+    for n in data['notes']:
+        run.note(n)
+    for k, v in data.get('extra', {}).items():
+        run.extra.setdefault(k, v)
+    if data['error'] is not None:
+        e = data['error']
+        raise AnalysisError(rule, e['reason'].replace('<rule>', rule))
 
 
 # ---------------------------------------------------------------------------------------------------
@@ -752,18 +850,18 @@ def shared_mechanisms(run: Run, prop: str, first: int, which: list):
         elif name == 'literals':
             from . import lexer_eval
             run.rule(rule, 'a number literal denotes the number its text spells (shared with C05.R3)')
-            run.guard(rule, lexer_eval.number_literal_obligations, run, rule, src, g)
+            run.guard(rule, shared, run, rule, lexer_eval.number_literal_obligations, src, g)
             run.floor(rule, 10)
         elif name == 'lexer':
             from . import lexer_eval
             run.rule(rule, 'the formula is cut into the tokens its text spells: separators, blanks, references (shared with C05.R3)')
-            run.guard(rule, lexer_eval.lexer_obligations, run, rule, src, g)
+            run.guard(rule, shared, run, rule, lexer_eval.lexer_obligations, src, g)
             run.floor(rule, 40)
         elif name == 'overrides':
             from . import executor_eval
             run.rule(rule, 'a value supplied as an override reaches the formulas as supplied -- zero, blank, dates and date-times too '
                            '(shared with C04.R1)')
-            run.guard(rule, executor_eval.evaluate_histories, run, rule, src)
+            run.guard(rule, shared, run, rule, executor_eval.evaluate_histories, src)
             run.floor(rule, 40)
         elif name == 'no-value-specialisation':
             from . import c04
@@ -772,7 +870,7 @@ def shared_mechanisms(run: Run, prop: str, first: int, which: list):
             run.floor(rule, 20)
         elif name == 'rejections':
             run.rule(rule, 'a formula that is rejected is rejected: no handler on the translation path turns it into text (shared with C05.R11)')
-            run.guard(rule, check_rejections_propagate, run, rule, src, get_callgraph(src),
+            run.guard(rule, shared, run, rule, check_rejections_propagate, src, get_callgraph(src),
                       ['AstBuilder.parse', 'CompositeBaseToken.get', 'UndefinedToken.get'], 'a formula that does not fit the grammar')
             run.floor(rule, 50)
         elif name == 'override-lookup':
@@ -791,7 +889,7 @@ def shared_mechanisms(run: Run, prop: str, first: int, which: list):
             from . import pipeline_eval
             run.rule(rule, 'probe formulas of this property, translated and evaluated end to end by the evaluator (lexer, parser, translators, '
                            'context, generated class, runtime helpers as written), give the values Excel defines')
-            run.guard(rule, pipeline_eval.formula_obligations, run, rule, src, g, {prop}, None if run.tier == 'thorough' else 6)
+            run.guard(rule, shared, run, rule, pipeline_eval.formula_obligations, src, g, [prop], None if run.tier == 'thorough' else 6)
             run.floor(rule, 5)
         else:
             raise AnalysisError('common', f'unknown mechanism {name}')
